@@ -23,6 +23,12 @@ pub struct Tree {
     pub kids: Vec<Tree>,
 }
 
+/// a type with a (defaulted) type parameter of its own, to stand in for a contract's parameter
+#[derive(Serialize, Deserialize, Clone, Debug, PartialEq, JsonSchema)]
+pub struct Boxed<T = sylvia::cw_std::Empty> {
+    pub v: T,
+}
+
 /// typed reply payload carrying a nonce and the reply handler's script
 #[derive(Serialize, Deserialize, Clone, Debug, PartialEq, JsonSchema)]
 pub struct Pay {
